@@ -202,6 +202,35 @@ FIRST_MISSED3 = {
 }
 
 
+# round 4: each agent saw all 19 property statements and chose which to break (hard mode)
+ROUND4 = {
+    ("X1", "A"): ("C01", "relaxed-mode decision flattened: when the 15-step chain stalls but the one-shot search succeeds, the stalled failing colour is returned with True (light saturated text on a mid-tone background, mode 2; ~1 in 9,000 random pairs)", "pair class 'vivid_unfavoured' (vivid text on the side the lightness search does not favour)"),
+    ("X1", "B"): ("C18", "per-file tables cleared only after a successful write: a file failing after analysis (error node, unwritable output) leaks its custom properties to the next file", None),
+    ("X1", "C"): ("C13", "number regex rewritten for exponents loses the leading-dot form: rgba(0,0,0,.5) read as 5%", None),
+    ("X2", "A"): ("C09", "output path built with str.replace('.css', '_cm.css') on the whole path: a second '.css' in a directory or file name", "file and directory names containing '.css' before the final extension"),
+    ("X2", "B"): ("C18", "output filter name.rstrip('.css').endswith('_cm'): stems ending in _cm followed by c/s (admin_cms.css) are skipped in directory runs", "stems such as x_cms.css / x_cmss.css in trees"),
+    ("X2", "C"): ("C13", "number regex without leading-dot decimals (also C07)", None),
+    ("X3", "A"): ("C12", "per-call memo keyed on (str(text), str(bg), large): a tuple colour and the informal string that prints the same characters", "str() alias entries next to each other in bulk lists"),
+    ("X3", "B"): ("C13", "background's original instead of its parsed rgb passed to the parser: hsla text over a 3-element float / numeric-string background", None),
+    ("X3", "C"): ("C09", "name.replace(suffix, '_cm' + suffix): names containing '.css' before the final extension (normalize.css.v8.css)", "such names as explicit targets and in directory runs"),
+    ("X4", "A"): ("C17", "warnings.warn on the 'alpha > 1 means percent' branch", None),
+    ("X4", "B"): ("C18", "case-insensitive *.css discovery with a case-sensitive _cm.css filter: PRINT.CSS compounds on repeated runs", "a PRINT.CSS bystander in every tree; the second run must create nothing"),
+    ("X4", "C"): ("C08", "first declaration wins (next()) for color / background-color", None),
+    ("X5", "A"): ("C18", "--default-bg 'var(--page-bg, white)' resolved once by rebinding the option: later files are judged against the first file's page background", "per-file --page-bg definitions and runs with a var() default background"),
+    ("X5", "B"): ("C09", "two cooperating edits: explicit files accepted case-insensitively, output name via re.sub(r'\\.css$'): THEME.CSS is overwritten in place", "explicit targets with non-lower-case extensions (and, as it happened, through a symlink)"),
+    ("X5", "C"): ("C08", "custom properties keyed by lower_name while look-ups use the written name: names containing upper-case letters", "mixed-case custom-property names"),
+    ("X6", "A"): ("C15", "one-entry Lab memo that stores its key before its value: two threads inside the optimiser at once", None),
+    ("X6", "B"): ("C02", "'return binary_result or gradient_result': the unchecked lightness candidate (lower contrast than the input) is returned when only the chroma descent reached the target; gamut-surface text just below the minimum; 0 in 19,200 random calls", "pair class 'gamut_surface' and a dedicated C02 shard (1,600 such pairs x 3 configurations)"),
+    ("X6", "C"): ("C17", "logger.warning on the hsla 'alpha > 1' branch: last-resort handler prints to stderr", None),
+    ("X7", "A"): ("C13", "background passed to the parser only for rgba/hsla/rgba_tuple formats: alpha-carrying rgb() and informal spellings composited over white", None),
+    ("X7", "B"): ("C06", "format detection by a case-sensitive regex: HSL(...) / RGBA(...) come back as rgb()", None),
+    ("X7", "C"): ("C17", "warnings.warn in hsla_to_rgb for percentage / >1 alphas", None),
+    ("X8", "A"): ("C08", "custom-property names lower-cased on definition and look-up: case twins (--text / --Text) collapse", "case-twin definitions with different values"),
+    ("X8", "B"): ("C07", "number regex without the leading-dot form", None),
+    ("X8", "C"): ("C16", "relaxed mode drops the initial default-mode shortcut (8% of mode-1 successes differ by 1-5 units)", None),
+}
+
+
 def archive(key, pid, src, v, needs, missed):
     if not os.path.exists(os.path.join(src, v + ".diff")):
         print(key, "missing deliverables")
@@ -241,6 +270,10 @@ def archive(key, pid, src, v, needs, missed):
 
 def main():
     want = sys.argv[1:]
+    if want and want[0] == "round4":
+        for (x, v), (pid, needs, missed) in sorted(ROUND4.items()):
+            archive(f"{pid}-R4{x}{v}", pid, os.path.join("/tmp/seed4", x + ".out"), v, needs, missed)
+        return
     if want and want[0] == "round3":
         for key in sorted(NEEDS3):
             if len(want) > 1 and key not in want[1:]:
